@@ -482,7 +482,8 @@ func (f *DefaultFanController) calculateTargetPwm() (int, error) {
 		lastSetTargetEqualsNewTarget := f.lastSetPwm != nil && *f.lastSetPwm == target
 		if shouldNeverStop && lastSetTargetEqualsNewTarget {
 			avgRpm := fan.GetRpmAvg()
-			if avgRpm <= 0 {
+			// the average is an exponential moving average which never reaches 0, so compare whole RPM
+			if int(avgRpm) <= 0 {
 				if target >= maxPwm {
 					ui.Error("CRITICAL: Fan %s avg. RPM is %d, even at PWM value %d", fan.GetId(), int(avgRpm), target)
 					return -1, ErrFanStalledAtMaxPwm
